@@ -43,6 +43,20 @@ CLASSES = {
                          "state_fluents": ("ref", "dict_PDDLFunction")}, "bases": [],
               "src": ("models.pddl_state", "State")},
     "opaque": {"fields": {}, "bases": [], "lib": True},
+    "JointActionCall": {"fields": {"actions": ("ref", "list_ActionCall")}, "bases": [], "src": ("models.action_call", "JointActionCall")},
+    "ObservedComponent": {"fields": {"previous_state": ("ref", "State"), "grounded_action_call": ("ref", "ActionCall"), "next_state": ("ref", "State")},
+                          "bases": [], "src": ("models.observation", "ObservedComponent")},
+    "MultiAgentComponent": {"fields": {"previous_state": ("ref", "State"), "grounded_joint_action": ("ref", "JointActionCall"), "next_state": ("ref", "State")},
+                            "bases": [], "src": ("models.observation", "MultiAgentComponent")},
+    "list_ObservedComponent": {"fields": {"items": ("seq", ("ref", "ObservedComponent"))}, "bases": [], "lib": True},
+    "list_MultiAgentComponent": {"fields": {"items": ("seq", ("ref", "MultiAgentComponent"))}, "bases": [], "lib": True},
+    "Observation": {"fields": {"components": ("ref", "list_ObservedComponent"), "grounded_objects": ("ref", "dict_PDDLObject")}, "bases": [],
+                    "src": ("models.observation", "Observation")},
+    "MultiAgentObservation": {"fields": {"components": ("ref", "list_MultiAgentComponent"), "grounded_objects": ("ref", "dict_PDDLObject"),
+                                         "agents_in_observation": ("ref", "list_str")}, "bases": [],
+                              "src": ("models.observation", "MultiAgentObservation")},
+    "TrajectoryParser": {"fields": {"partial_domain": ("ref", "Domain"), "problem": ("ref", "Problem"), "logger": ("ref", "opaque")}, "bases": [],
+                         "src": ("lisp_parsers.trajectory_parser", "TrajectoryParser")},
     "Path": {"fields": {"stem": "str"}, "bases": [], "lib": True},
     "MultiAgentDomainsConverter": {"fields": {"logger": ("ref", "opaque"), "domains_directory_path": ("ref", "Path")}, "bases": [],
                                    "src": ("multi_agent.multi_agent_domain_converter", "MultiAgentDomainsConverter")},
